@@ -204,6 +204,8 @@ def load_one(lit: LineIterator) -> dict:
 
     result["obasis"] = MolecularBasis(shells, CONVENTIONS, "L2")
     nbasis = fchk["Number of basis functions"]
+    if result["obasis"].nbasis != nbasis:
+        raise LoadError("The shell types are inconsistent with the number of basis functions.", lit)
 
     # C) Load density matrices
     one_rdms = {}
